@@ -337,6 +337,12 @@ impl<T: TransportFallback> TimeAwareMatrixTransportCost<T> {
                     .get(data_idx)
                     .zip(matrices.get(matrix_idx).unwrap().durations.get(data_idx))
                     .map(|(&left_value, &right_value)| {
+                        // NOTE a negative value marks an unreachable location: keep the left value (as for distances)
+                        // instead of interpolating through the marker
+                        if left_value < 0. || right_value < 0. {
+                            return left_value;
+                        }
+
                         // perform linear interpolation
                         let ratio = (timestamp - left_matrix.timestamp.unwrap())
                             / (right_matrix.timestamp.unwrap() - left_matrix.timestamp.unwrap());
